@@ -147,8 +147,18 @@ unsigned nondet_unsigned(void);
 _Bool nondet_bool(void);
 unsigned char nondet_uchar(void);
 long nondet_long(void);
+/* -DVF_SMALL_WITNESS=n (used by the runner when it fetches the counterexample of an obligation that
+ * already failed): prefer a counterexample whose named inputs are small, so that the native replay
+ * can rebuild the state through the public API; if none exists the runner falls back to any. */
+#ifdef VF_SMALL_WITNESS
+static inline size_t vf_small_size(size_t v) { __CPROVER_assume(v <= VF_SMALL_WITNESS); return v; }
+static inline int vf_small_int(int v) { __CPROVER_assume(v >= -(VF_SMALL_WITNESS) && v <= VF_SMALL_WITNESS); return v; }
+#define VF_IN_SIZE(name)   (vf_w_##name = vf_small_size(nondet_size_t()))
+#define VF_IN_INT(name)    (vf_w_##name = vf_small_int(nondet_int()))
+#else
 #define VF_IN_SIZE(name)   (vf_w_##name = nondet_size_t())
 #define VF_IN_INT(name)    (vf_w_##name = nondet_int())
+#endif
 #define VF_IN_BOOL(name)   (vf_w_##name = nondet_bool())
 
 /* end of harness: goal "normal return reachable" of the vacuity run */
